@@ -41,22 +41,255 @@ def perfEncode (bins maxShift minPitch maxPitch : Int) (ty : Nat) (v : Int) :=
 def perfDecode (bins maxShift minPitch maxPitch : Int) (i : Int) :=
   decodeAux (perfRanges bins maxShift minPitch maxPitch) 0 i
 
-/-! ### MultiDrumOneHotEncoding over a table of pitch lists -/
+/-! ### MultiDrumOneHotEncoding over a table of pitch lists
+
+`__init__(drum_type_pitches, ignore_unknown_drums)`; the table is a parameter of every function
+below (the theorems are about arbitrary tables; `Gen.drumTable` is the shipped default). -/
 /-- `_inverse_drum_map[pitch]`: dict comprehension, so the *last* class listing a pitch wins -/
 def classOf (table : List (List Nat)) (pitch : Nat) : Option Nat :=
   (List.range table.length).foldl
     (fun acc i => if (table.getD i []).contains pitch then some i else acc) none
 
-/-- `encode_event`: sum of `2^i` over the set of classes hit -/
+/-- `sum(2 ** i for i in drum_type_indices)` where `drum_type_indices` is the *set* of classes hit -/
 def drumEncode (table : List (List Nat)) (ev : List Nat) : Nat :=
   ((List.range table.length).filter (fun i => ev.any (fun p => classOf table p == some i))).foldl
     (fun acc i => acc + 2 ^ i) 0
 
-/-- `decode_event`: first pitch of every class whose bit is set (`KeyError` past the table) -/
+/-- `encode_event` with the `ignore_unknown_drums` flag: when the flag is off, a pitch that is in
+no class raises `DrumsEncodingError` (whichever unknown pitch the set iteration meets first: the
+exception type is the same). -/
+def drumEncodeE (table : List (List Nat)) (ignoreUnknown : Bool) (ev : List Nat) : Except String Nat :=
+  if !ignoreUnknown && ev.any (fun p => (classOf table p).isNone) then .error "DrumsEncodingError"
+  else .ok (drumEncode table ev)
+
+/-- the generator inside `decode_event`, restricted to the bit positions `is` (ascending):
+`self._drum_map[i][0]` for every set bit — `KeyError` when `i` is past the table, `IndexError`
+when class `i` is an empty list. -/
+def decodeIdxs (table : List (List Nat)) (idx : Nat) : List Nat → Except String (List Nat)
+  | [] => .ok []
+  | i :: is =>
+      if idx.testBit i then
+        match table[i]? with
+        | none => .error "KeyError"
+        | some [] => .error "IndexError"
+        | some (p :: _) => match decodeIdxs table idx is with
+            | .ok ps => .ok (p :: ps)
+            | .error e => .error e
+      else decodeIdxs table idx is
+
+/-- `decode_event`: first pitch of every class whose bit is set.  The bits are visited from the
+least significant one, so an empty class below `len(table)` raises `IndexError` before a bit past
+the table raises `KeyError`. -/
 def drumDecode (table : List (List Nat)) (idx : Nat) : Except String (List Nat) :=
-  if idx < 2 ^ table.length then
-    .ok ((List.range table.length).filterMap
-      (fun i => if idx.testBit i then (table.getD i []).head? else none))
-  else .error "KeyError"
+  match decodeIdxs table idx (List.range table.length) with
+  | .error e => .error e
+  | .ok ps => if idx < 2 ^ table.length then .ok ps else .error "KeyError"
+
+/-! ### Python list indexing (negative indices wrap once, otherwise `IndexError`) -/
+def pyIndex {α} (l : List α) (i : Int) : Except String α :=
+  let j := if i < 0 then i + l.length else i
+  if j < 0 then .error "IndexError"
+  else match l[j.toNat]? with
+    | some a => .ok a
+    | none => .error "IndexError"
+
+/-! ### Chord one-hot encodings (`chords_encoder_decoder.py`)
+
+`encode_event` looks at a chord symbol string only through `chord_symbols_lib.chord_symbol_root`
+and `chord_symbol_quality`.  The model works on the *structured* symbol those functions see after
+`_split_chord_symbol` (a regular-expression match, "modelled, not verified"): root step letter and
+alteration, kind abbreviation, scale-degree modifications.  The bass never matters. -/
+
+/-- one scale-degree modification: `op` 0 = `_add_scale_degree`, 1 = `_subtract_scale_degree`,
+2 = `_alter_scale_degree` (codes assigned by the generator from the function objects in
+`_DEGREE_MODIFICATIONS`), the table's alteration, and the degree number from the symbol -/
+structure Mod where
+  op : Nat
+  alter : Int
+  degree : Nat
+deriving Repr, DecidableEq
+
+/-- a chord progression event as the encoders see it -/
+inductive ChordEvent where
+  | noChord
+  | sym (step : Char) (alter : Int) (kind : List Char) (mods : List Mod)
+deriving Repr, DecidableEq
+
+/-- what `decode_event` returns: `NO_CHORD` or `_PITCH_CLASS_MAPPING[k] + suffix` -/
+inductive ChordDecoded where
+  | noChord
+  | name (root : List Char) (suffix : List Char)
+deriving Repr, DecidableEq
+
+/-- a Python `dict` from scale degree to alteration, in insertion order -/
+abbrev Degrees := List (Nat × Int)
+
+def degGet (d : Degrees) (k : Nat) : Option Int := d.lookup k
+def degSet : Degrees → Nat → Int → Degrees
+  | [], k, v => [(k, v)]
+  | (k', v') :: r, k, v => if k' = k then (k, v) :: r else (k', v') :: degSet r k v
+def degDel (d : Degrees) (k : Nat) : Degrees := d.filter (fun kv => kv.1 != k)
+
+/-- `dict(_parse_degree(s) for s in degrees)` -/
+def degOfPairs (ps : List (Nat × Int)) : Degrees := ps.foldl (fun d kv => degSet d kv.1 kv.2) []
+
+/-- `_parse_kind`: `_CHORD_KINDS_BY_ABBREV[kind_str]` (`KeyError` cannot happen after the regex) -/
+def parseKind (kind : List Char) : Except String Degrees :=
+  match Gen.chordKindsByAbbrev.lookup kind with
+  | some ps => .ok (degOfPairs ps)
+  | none => .error "KeyError"
+
+/-- `_add_scale_degree` / `_subtract_scale_degree` / `_alter_scale_degree` -/
+def applyMod (d : Degrees) (m : Mod) : Except String Degrees :=
+  if m.op = 0 then
+    if (degGet d m.degree).isSome then .error "ChordSymbolError"
+    else .ok (degSet d m.degree (if m.degree = 7 then m.alter - 1 else m.alter))
+  else if m.op = 1 then
+    if (degGet d m.degree).isNone then .error "ChordSymbolError"
+    else .ok (degDel d m.degree)
+  else
+    match degGet d m.degree with
+    | some a => .ok (degSet d m.degree (a + m.alter))
+    | none => .ok (degSet d m.degree m.alter)
+
+/-- `_apply_modifications` -/
+def applyMods : Degrees → List Mod → Except String Degrees
+  | d, [] => .ok d
+  | d, m :: ms => match applyMod d m with
+      | .ok d' => applyMods d' ms
+      | .error e => .error e
+
+/-- the triad test at the end of `chord_symbol_quality` -/
+def qualityOfDegrees (d : Degrees) : Nat :=
+  match degGet d 1, degGet d 3, degGet d 5 with
+  | some a, some b, some c =>
+      if a = 0 ∧ b = 0 ∧ c = 0 then Gen.CHORD_QUALITY_MAJOR
+      else if a = 0 ∧ b = -1 ∧ c = 0 then Gen.CHORD_QUALITY_MINOR
+      else if a = 0 ∧ b = 0 ∧ c = 1 then Gen.CHORD_QUALITY_AUGMENTED
+      else if a = 0 ∧ b = -1 ∧ c = -1 then Gen.CHORD_QUALITY_DIMINISHED
+      else Gen.CHORD_QUALITY_OTHER
+  | _, _, _ => Gen.CHORD_QUALITY_OTHER
+
+/-- `_pitch_class_to_midi(step, alter)` = `(_STEPS_MIDI[step] + alter) % 12` -/
+def pitchClassToMidi (step : Char) (alter : Int) : Except String Int :=
+  match Gen.stepsMidi.lookup step with
+  | some m => .ok (Int.fmod (m + alter) 12)
+  | none => .error "KeyError"
+
+/-- `chord_symbol_quality` on a structured symbol -/
+def symQuality (kind : List Char) (mods : List Mod) : Except String Nat :=
+  match parseKind kind with
+  | .error e => .error e
+  | .ok d => match applyMods d mods with
+      | .error e => .error e
+      | .ok d' => .ok (qualityOfDegrees d')
+
+/-- root pitch class and quality that `chord_symbol_root` / `chord_symbol_quality` give an event
+(`none` for `NO_CHORD`, which the encoders test first) -/
+def rootQuality : ChordEvent → Except String (Option (Int × Nat))
+  | .noChord => .ok none
+  | .sym step alter kind mods =>
+      match pitchClassToMidi step alter with
+      | .error e => .error e
+      | .ok r => match symQuality kind mods with
+          | .error e => .error e
+          | .ok q => .ok (some (r, q))
+
+/-- `_parse_pitch_class` on the characters of a pitch-class name: `([A-G])(#*|b*)$`, alteration
+`len(alter) * (1 if '#' in alter else -1)` -/
+def parsePitchClass : List Char → Option (Char × Int)
+  | [] => none
+  | c :: rest =>
+      if 'A' ≤ c ∧ c ≤ 'G' then
+        if rest.all (· == '#') then some (c, (rest.length : Int))
+        else if rest.all (· == 'b') then some (c, -(rest.length : Int))
+        else none
+      else none
+
+/-- the string layer on a *decoded* name: `_split_chord_symbol(name + suffix)` is
+`(name, suffix, '', '')` (modelled; checked against the real regex for every index on every run) -/
+def structured : ChordDecoded → Option ChordEvent
+  | .noChord => some .noChord
+  | .name root suffix => match parsePitchClass root with
+      | some (step, alter) => some (.sym step alter suffix [])
+      | none => none
+
+/-- `MajorMinorChordOneHotEncoding.num_classes` -/
+def mmNumClasses : Int := 2 * Gen.NOTES_PER_OCTAVE + 1
+
+/-- `MajorMinorChordOneHotEncoding.encode_event` -/
+def mmEncode : ChordEvent → Except String Int
+  | .noChord => .ok 0
+  | .sym step alter kind mods =>
+      match pitchClassToMidi step alter with
+      | .error e => .error e
+      | .ok root => match symQuality kind mods with
+          | .error e => .error e
+          | .ok q =>
+              if q = Gen.CHORD_QUALITY_MAJOR then .ok (root + 1)
+              else if q = Gen.CHORD_QUALITY_MINOR then .ok (root + Gen.NOTES_PER_OCTAVE + 1)
+              else .error "ChordEncodingError"
+
+/-- `MajorMinorChordOneHotEncoding.decode_event` (the literal `12` is the source's) -/
+def mmDecode (index : Int) : Except String ChordDecoded :=
+  if index = 0 then .ok .noChord
+  else if index - 1 < 12 then
+    match pyIndex Gen.pitchClassMapping (index - 1) with
+    | .ok n => .ok (.name n [])
+    | .error e => .error e
+  else
+    match pyIndex Gen.pitchClassMapping (index - Gen.NOTES_PER_OCTAVE - 1) with
+    | .ok n => .ok (.name n ['m'])
+    | .error e => .error e
+
+/-- `TriadChordOneHotEncoding.num_classes` -/
+def triadNumClasses : Int := 4 * Gen.NOTES_PER_OCTAVE + 1
+
+/-- `TriadChordOneHotEncoding.encode_event` -/
+def triadEncode : ChordEvent → Except String Int
+  | .noChord => .ok 0
+  | .sym step alter kind mods =>
+      match pitchClassToMidi step alter with
+      | .error e => .error e
+      | .ok root => match symQuality kind mods with
+          | .error e => .error e
+          | .ok q =>
+              if q = Gen.CHORD_QUALITY_MAJOR then .ok (root + 1)
+              else if q = Gen.CHORD_QUALITY_MINOR then .ok (root + Gen.NOTES_PER_OCTAVE + 1)
+              else if q = Gen.CHORD_QUALITY_AUGMENTED then .ok (root + 2 * Gen.NOTES_PER_OCTAVE + 1)
+              else if q = Gen.CHORD_QUALITY_DIMINISHED then .ok (root + 3 * Gen.NOTES_PER_OCTAVE + 1)
+              else .error "ChordEncodingError"
+
+/-- `TriadChordOneHotEncoding.decode_event` -/
+def triadDecode (index : Int) : Except String ChordDecoded :=
+  let name (k : Int) (suffix : List Char) : Except String ChordDecoded :=
+    match pyIndex Gen.pitchClassMapping k with
+    | .ok n => .ok (.name n suffix)
+    | .error e => .error e
+  if index = 0 then .ok .noChord
+  else if index - 1 < 12 then name (index - 1) []
+  else if index - Gen.NOTES_PER_OCTAVE - 1 < 12 then name (index - Gen.NOTES_PER_OCTAVE - 1) ['m']
+  else if index - 2 * Gen.NOTES_PER_OCTAVE - 1 < 12 then
+    name (index - 2 * Gen.NOTES_PER_OCTAVE - 1) ['a', 'u', 'g']
+  else name (index - 3 * Gen.NOTES_PER_OCTAVE - 1) ['d', 'i', 'm']
+
+/-! ### NoteDensityOneHotEncoding (`performance_controls.py`)
+
+Only comparisons of the event with the boundaries are performed, so the model over `Rat` is exact
+for Python floats (every finite float is a rational; NaN / inf are outside the model). -/
+
+/-- the `for idx, density in enumerate(...)` loop of `encode_event`, `idx` = running index;
+falling off the end returns `len(self._density_bin_ranges)` = the running index there -/
+def densEncodeAux : List Rat → Nat → Rat → Nat
+  | [], idx, _ => idx
+  | d :: ds, idx, x => if x < d then idx else densEncodeAux ds (idx + 1) x
+
+def densEncode (bounds : List Rat) (x : Rat) : Nat := densEncodeAux bounds 0 x
+
+/-- `decode_event` -/
+def densDecode (bounds : List Rat) (index : Int) : Except String Rat :=
+  if index = 0 then .ok 0 else pyIndex bounds (index - 1)
+
+def densNumClasses (bounds : List Rat) : Nat := bounds.length + 1
 
 end NSV.C09
